@@ -7,6 +7,8 @@ import JunoModel.C17.Model
 * `tick <fin>`                                            poll + `setL1Head` → `head=<h> note=<h>`
 * `fwd <blockNumber> <blockHash> <globalRoot> <l1> <removed>`  raw L1 log through the geth layer
                                                           → `su <l2> <hash> <root> <l1> <removed>`
+* `startup <oneshot 0|1> <chain-id answers e|o|m… or -> <latest ok 0|1> <fin1 ok 0|1>`
+                                                          → `gate=proceed|fatal|cancelled catchup=yes|no`
 * `head`                                                   → `head=<h>` (stored head, no transition)
 * `suberr` | `resub <0|1>` | `finerr`                     → `ok` (identity transitions)
 * `hist <l2> <hash> <root> <l1> <removed>` / `histclear`  provider log history for catch-up → `ok`
@@ -71,6 +73,19 @@ def dstep (s : DState) (line : String) : DState × String :=
       (s, "su " ++ natToHex u.l2 ++ " " ++ natToHex u.hash ++ " " ++ natToHex u.root ++ " " ++
         natToHex u.l1 ++ " " ++ (if u.removed then "1" else "0"))
     | _, _, _, _, _ => (s, "bad-op")
+  | ["startup", os, script, la, f1] =>
+    let ans? : Option (List ChainIdAns) := if script == "-" then some [] else
+      script.toList.foldr (fun c acc => do
+        let t ← acc
+        if c == 'e' then pure (.err :: t) else if c == 'o' then pure (.ok :: t)
+        else if c == 'm' then pure (.mismatch :: t) else none) (some [])
+    match bool? os, ans?, bool? la, bool? f1 with
+    | some os, some ans, some la, some f1 =>
+      let gate := if os then checkChainIDOnce ans else ensureChainID ans
+      let g := match gate with | .proceed => "proceed" | .fatal => "fatal" | .cancelled => "cancelled"
+      let cu := if gate == .proceed && la && f1 then "yes" else "no"
+      (s, "gate=" ++ g ++ " catchup=" ++ cu)
+    | _, _, _, _ => (s, "bad-op")
   | ["head"] => (s, "head=" ++ fmtHead s.st.head)
   | ["suberr"] => ({ s with st := step s.guard s.st .subErr }, "ok")
   | ["finerr"] => ({ s with st := step s.guard s.st .finErr }, "ok")
